@@ -25,9 +25,18 @@ def run_one(prop: str, tier: str, repo_root: str, seed: int, evidence_dir: str) 
         ctx = Ctx(prop, repo, tier, seed)
         mod.run(ctx)
         if tier == "thorough" and hasattr(mod, "run_thorough"):
-            mod.run_thorough(ctx)
-            from .selftest.equiv import run_equivalences
-            run_equivalences(ctx)
+            # The self-tests (mutant / equivalent corpus, metamorphic rewrites) are defined relative to a tree on which the
+            # property's obligations hold.  If the tree under analysis already violates the property, that verdict is what
+            # must be reported (exit 1, VIOLATION): a self-test run on top of it could only mask it behind an analysis error.
+            from .core import load_known, match_known
+            known = load_known()
+            new_viol = [o for o in ctx.obligations if not o.ok and match_known(ctx.prop, o, known) is None]
+            if new_viol:
+                ctx.extra["selftest"] = "skipped: the tree violates the property; self-tests are defined relative to a tree on which the obligations hold"
+            else:
+                mod.run_thorough(ctx)
+                from .selftest.equiv import run_equivalences
+                run_equivalences(ctx)
         return finish(ctx, mod.FLOOR, mod.EXPLANATION, mod.RULE, os.path.join(evidence_dir, f"{prop}.json"))
     except AnalysisError as e:
         print(f"ANALYSIS-ERROR property={prop} {e}")
